@@ -229,9 +229,20 @@ def walk_answers(ctx, spec, rng):
                 fl, sid = sess[p].next()
                 h.at(t, prot.datagram_received, net.sd_bytes(ents, sid, reboot=fl), p, rng.random() < 0.2 and len(ents) == 1 and ents[0] is find)
             ctx.count("find_and_subscribe_of_one_peer_in_one_iteration" if shape < 4 else "lone_subscribes")
+        # half of the stacks get a new transport object halfway (the application re-opened its socket and assigned the public
+        # attribute again): the peers see one sequence
+        trs = [tr]
+        if sc % 2:
+            def swap():
+                trs.append(net.RecTransport(h.loop, ("10.9.3.1", 30490)))
+                prot.transport = trs[-1]
+
+            h.at(0.25 + (t - 0.25) / 2 + 2.0 ** -11, swap)
+            ctx.count("stacks_whose_transport_was_assigned_again_midway")
         h.run(t + 1.0)
-        judge_sd_log(ctx, tr.sent, IdModel(), dict(spec=spec), "answers made while receiving")
-        ctx.count("answer_path_datagrams", len(tr.sent))
+        sent = [x for one in trs for x in one.sent]
+        judge_sd_log(ctx, sent, IdModel(), dict(spec=spec), "answers made while receiving")
+        ctx.count("answer_path_datagrams", len(sent))
         bad = h.problems()
         h.close()
         for b in bad:
